@@ -356,8 +356,13 @@ fn exec15(cx: &mut Ctx, c: &C15Case) {
                     let mut x = other.clone();
                     let mut y = s.clone();
                     let (mut ox, mut oy) = ([0u8; 64], [0u8; 64]);
-                    x.refill(10, &mut ox);
-                    y.refill(10, &mut oy);
+                    if let Err(p) = guarded(|| {
+                        x.refill(10, &mut ox);
+                        y.refill(10, &mut oy);
+                    }) {
+                        cx.log.panic_violation(&format!("{}|op=refill", sigp), &p);
+                        break;
+                    }
                     if ox != oy || ox != m.block(10, 0) {
                         cx.log.violation(&format!("{}|directly-built-state-differs", sigp), &format!("op #{}: a state built directly with counter {:#x} / stream id {:#x} produces different output", i, m.ctr(), m.sid()));
                         break;
